@@ -29,7 +29,7 @@ func init() {
 		Assumptions: []string{
 			"equality of datetime values = same Go type, same instant, same zone offset",
 			"accept/reject of UnmarshalJSON is judged on syntactically valid JSON values only (the json.Unmarshaler contract), directly and through json.Unmarshal; raw byte strings that are not JSON are passed directly too, but only 'returns instead of panicking' is asserted for them",
-			"for JSON null either an error or a no-op is accepted",
+			"a direct UnmarshalJSON(null) must return an error, as the statement lists null among the rejected inputs; through json.Unmarshal a null for a pointer target is handled by encoding/json itself and nothing is asserted",
 		},
 	})
 }
@@ -301,10 +301,12 @@ func checkUnmarshalC18(c *h.Ctx, typ, in string) {
 	// "garbage": not a string at all, or a string that cannot denote a value of
 	// any spelling (fewer than 5 characters, or no digit).
 	mustErr := !isString || len(content) < 5 || !strings.ContainsAny(content, "0123456789")
-	if in == "null" {
-		mustErr = false
-	}
 	for _, via := range []string{"direct", "json.Unmarshal"} {
+		mustErr := mustErr
+		if in == "null" && via != "direct" {
+			// (encoding/json handles a null for a pointer target itself)
+			mustErr = false
+		}
 		nv, um := newOf(typ)
 		var err error
 		pan := ""
